@@ -6,6 +6,8 @@ CONSTANTS
   ValIds = {"x", "y", "e"}
   MaxPos = 2
   Kinds = {"compress", "bytes", "logbytes", "json", "rlp"}
+  Prefill = FALSE
+  Reads = TRUE
   MaxOps = 2
   Depth = 2
   Proj <- FullProj
